@@ -37,7 +37,7 @@ pub fn run_c03(cx: &mut Cx) { run(cx, Mode::Complete) }
 pub fn run_c04(cx: &mut Cx) { run(cx, Mode::Sound) }
 
 fn run(cx: &mut Cx, mode: Mode) {
-    cx.preemptions_left = cx.ch.choose("preemptions", 3) as u32;
+    cx.preemptions_left = cx.ch.choose("preemptions", 5) as u32;
     let ideal: Shared = Rc::new(RefCell::new(Ideal::default()));
     let holder = cx.node("holder");
     let verifier = cx.node("verifier");
